@@ -100,6 +100,21 @@ Theorem fixed_empty_lines_ignored : forall b X fuel gen,
   /\ f2_fetch (S fuel) (eol b ++ X) gen = f2_fetch fuel X (S gen).
 Proof. exact (fun b X fuel gen => conj (f1_readline_skips_empty b X fuel) (f2_fetch_skips_empty b X fuel gen)). Qed.
 
+(* ... and ONLY those: every non-empty line - in particular a line made of blanks only (space
+   padded fields that are all empty) or a single space - is a line of data for both readers *)
+Theorem fixed_blank_lines_are_data : forall l crlf X,
+  l <> [] -> mem_byte LF l = false -> mem_byte CR l = false ->
+  (forall fuel, f1_readline (S fuel) (l ++ eol crlf ++ X) = Some (Some l, X))
+  /\ (forall fuel gen, f2_fetch (S fuel) (l ++ eol crlf ++ X) gen = Some (Some l, X, S gen)).
+Proof. exact nonempty_line_kept. Qed.
+
+Example fixed_blank_line_nonvacuous :
+  (* rows: 2, the second line of the envelope is three blanks: it is the envelope's second row *)
+  let d := mkEnv2 (hx "72") (Rows 2) true 0 None [mkFCol (hx "61") 1 2 (Some 1) None; mkFCol (hx "62") 1 5 (Some 2) None] in
+  fst (read_and_matchF pat_match d true (f2_init (hx "78790a2020200a7a0a")))
+  = Ok (true, Some (T ElementNode (hx "72") FNone [text_elem (hx "61") (hx "7879"); text_elem (hx "62") (hx "202020")])).
+Proof. vm_compute. reflexivity. Qed.
+
 (* ---- old csv reader --------------------------------------------------------------------------------- *)
 (* a record becomes a node whose j-th child is the j-th declared column holding field j; columns
    beyond the row are absent, fields beyond the declared columns are dropped *)
